@@ -5,11 +5,17 @@
 
 const ALPHABET: [char; 20] = ['(', ')', '.', '\'', '"', '#', '\\', '|', ';', 'a', '1', '0', '9', '/', 'e', '+', '-', ' ', '\n', 't'];
 // (nested parameter lists reached ParameterFormals::as_name's unreachable!() until fix aaeb221; they are probed since)
-const SEEDS: [&str; 20] = [
+// (a macro whose expansion is itself a define-syntax: the expander kept its table borrowed while transforming the expansion)
+const SEEDS: [&str; 26] = [
     "((lambda ((a) b) a) 1 2)", "(define (f (a) b) a) (f 1 2)", "((lambda ((a . b)) a) 1)", "((lambda (a (b c)) a) 1 2)", "((lambda (a ()) a) 1 2)",
     "(define (g . (a)) a) (g 1)",
     "(a . b)", "'(a . b)", "(quote (1 . 2))", "1/", "1/0", "99999999999", "-99999999999", "1/99999999999", "1e", "1.e", "1e+",
     "(/ -2147483648 -1)", "(abs -2147483648)", "(if . 1)",
+    "(define-syntax m (syntax-rules () ((m) (define-syntax n (syntax-rules () ((n) 1)))))) (m)",
+    "(define-syntax m (syntax-rules () ((m x) (define-syntax x (syntax-rules () ((x) 2)))))) (m k) (k)",
+    "(define-syntax m (syntax-rules () ((m) (m2)))) (define-syntax m2 (syntax-rules () ((m2) (define-syntax n (syntax-rules () ((n) 3)))))) (m) (n)",
+    "(define (f) (define-syntax loc (syntax-rules () ((loc) 4))) (loc)) (f)",
+    "(-)", "((lambda (a . b) a))",
 ];
 
 fn panics(it: &mut Interpreter<f32>, text: &str) -> bool {
